@@ -15,7 +15,10 @@ HOSTILE_TEXT = ["it's", '"quoted"', 'back\\slash', '100%', 'a_b', '', 'naïve', 
                 "a'b\"c", '\\', '%', '_', 'null', 'NULL', "';--", 'tab\tx', 'é', 'a' * 40]
 
 
-def gen_table(rng, ncols=None, nrows=None, allow_nul=False, allow_pk=False):
+BIG_WHOLE = [2 ** 53 + 1, -(2 ** 53 + 1), 2 ** 53 + 3, 2 ** 62 + 1, -(2 ** 60 + 7), 10 ** 17 + 1]
+
+
+def gen_table(rng, ncols=None, nrows=None, allow_nul=False, allow_pk=False, allow_big_whole=False):
     if nrows is None:
         nrows = rng.choice([0, 1, 2, 3, 5, 21, 30])
     cols = []
@@ -41,6 +44,10 @@ def gen_table(rng, ncols=None, nrows=None, allow_nul=False, allow_pk=False):
             col['values'] = [None if v is None else ('v%02d' % i + ('\x00tail%d' % i if i % 5 == 0 else '')) for i, v in enumerate(col['values'])]
         if kind == 'float64':
             col['values'] = [v if v not in ('inf', '-inf', 'nan') else 1e300 for v in col['values']]
+        if allow_big_whole and sqltype == 'numeric' and nrows and rng.random() < 0.4:
+            # a column declared NUMERIC keeps whole numbers as exact integers: some beyond what a binary64 float can hold
+            picks = rng.sample(BIG_WHOLE, rng.randint(1, 3))
+            col['values'] = [v if v is None or rng.random() < 0.6 else rng.choice(picks) for v in col['values']]
         if kind == 'dt_s':
             col['values'] = [None if v is None else v[:19] for v in col['values']]
             col['values'] = [v if v is None or 1000 <= int(v[:4]) <= 9999 else '2000' + v[4:] for v in col['values']]
@@ -76,7 +83,7 @@ def sql_value(col, v):
     if k == 'dt_s':
         return v.replace('T', ' ')
     if k == 'float64':
-        return float(v)
+        return v if isinstance(v, int) and abs(v) > 2 ** 53 else float(v)
     return v
 
 
